@@ -34,8 +34,8 @@ type LoopVar struct {
 type LoopSum struct {
 	ID     int
 	Parent int
-	Over   *Term // map range: the map
-	Cond   *Term // condition under which the header continues into the body
+	Over   *Term   // map range: the map
+	Cond   *Term   // condition under which the header continues into the body
 	Exits  []*Term // conditions (within one iteration) of leaving the loop other than through the header
 	Vars   []LoopVar
 	Pos    token.Pos
@@ -43,12 +43,12 @@ type LoopSum struct {
 
 type Summary struct {
 	LocalInit map[string]*Term // initial value of address-taken locals that are assigned again later
-	Fn       *ssa.Function
-	Results  []*Term
-	Effects  []Effect
-	Loops    []*LoopSum
-	Closures []*ssa.Function
-	Notes    []string
+	Fn        *ssa.Function
+	Results   []*Term
+	Effects   []Effect
+	Loops     []*LoopSum
+	Closures  []*ssa.Function
+	Notes     []string
 }
 
 type loopInfo struct {
@@ -59,20 +59,20 @@ type loopInfo struct {
 }
 
 type summarizer struct {
-	p        *Program
-	f        *ssa.Function
-	loops    []*loopInfo
-	loopOf   map[*ssa.BasicBlock]*loopInfo // innermost
-	memo     map[ssa.Value]*Term
-	pcMemo   map[*ssa.BasicBlock]*Term
-	inprog   map[ssa.Value]bool
-	ord      *ordinals // shared with inlined callees
-	subst    map[*ssa.Parameter]*Term
-	parent   *summarizer
-	depth    int
-	inlined  map[*ssa.Call]*summarizer
-	sum      *Summary
-	nameMap  func(string) string // canonical names for callees (spec_ prefix stripping)
+	p       *Program
+	f       *ssa.Function
+	loops   []*loopInfo
+	loopOf  map[*ssa.BasicBlock]*loopInfo // innermost
+	memo    map[ssa.Value]*Term
+	pcMemo  map[*ssa.BasicBlock]*Term
+	inprog  map[ssa.Value]bool
+	ord     *ordinals // shared with inlined callees
+	subst   map[*ssa.Parameter]*Term
+	parent  *summarizer
+	depth   int
+	inlined map[*ssa.Call]*summarizer
+	sum     *Summary
+	nameMap func(string) string // canonical names for callees (spec_ prefix stripping)
 }
 
 func Summarize(p *Program, f *ssa.Function) *Summary {
